@@ -1,9 +1,9 @@
 CONSTANT Mode = "greedy"
 CONSTANT N1s = {2, 3}
-CONSTANT N2s = {1, 2, 3}
-CONSTANT Ks = {0, 1, 2}
+CONSTANT N2s = {1, 2}
+CONSTANT Ks = {0, 1, 2, 3}
 CONSTANT MaxRank = 2
-CONSTANT MaxCand = 5
+CONSTANT MaxCand = 6
 CONSTANT NCs = {1}
 CONSTANT NBs = {1}
 CONSTANT Ss = {2}
